@@ -44,12 +44,18 @@ class StringSimplifyConstant:
     def mutations(self, node):
         yield Simplification({node.id: Node('""')}, [])
         content = node[1:-1]
+        cands = []
         for sec in nodes.binary_search(len(content)):
             start = self.__fix_escape_sequences(content, sec[0])
-            yield Simplification(
-                {node.id: Node(f'"{content[:start]}{content[sec[1]:]}"')}, [])
-        yield Simplification({node.id: Node(f'"{content[1:]}"')}, [])
-        yield Simplification({node.id: Node(f'"{content[:-1]}"')}, [])
+            cands.append(f'{content[:start]}{content[sec[1]:]}')
+        cands.append(content[1:])
+        cands.append(content[:-1])
+        for cand in cands:
+            # A quote within a string literal is written as "". Cutting such
+            # a pair leaves an odd number of quotes and the result is no
+            # longer one string literal.
+            if cand.count('"') % 2 == 0:
+                yield Simplification({node.id: Node(f'"{cand}"')}, [])
 
     def global_mutations(self, node, input_):
         for simp in self.mutations(node):
